@@ -17,6 +17,8 @@
 #include <ksi/tree_builder.h>
 #include <ksi/blocksigner.h>
 #include <ksi/hashchain.h>
+#include <ksi/tlv.h>
+#include "impl/meta_data_impl.h"
 #include "impl/ctx_impl.h"
 #include "impl/net_impl.h"
 #include <openssl/evp.h>
@@ -98,13 +100,14 @@ static int lf_close_level(const LF *f, int extra) {
 	for (i = 0; i <= RF_SLOTS; i++) if (t.occ[i]) root = root < 0 ? t.lv[i] : (t.lv[i] > root ? t.lv[i] : root) + 1;
 	return root;
 }
-static void rf_add(RF *f, int alg, const RN *node) {
+static int rf_add(RF *f, int alg, const RN *node) {
 	RN cur = *node; int i;
 	for (i = 0; i < RF_SLOTS; i++) {
-		if (!f->occ[i]) { f->s[i] = cur; f->occ[i] = 1; return; }
-		if (ref_join(alg, &f->s[i], &cur, &cur) != 0) { fprintf(stderr, "harness: rf_add overflow\n"); exit(3); }
+		if (!f->occ[i]) { f->s[i] = cur; f->occ[i] = 1; return 0; }
+		if (ref_join(alg, &f->s[i], &cur, &cur) != 0) return -1;     /* callers make sure beforehand (levels-only forest) that this cannot happen */
 		f->occ[i] = 0;
 	}
+	return -1;
 }
 /* joins the occupied slots from the lowest to the highest, the higher (older) slot on the left */
 static int rf_close(const RF *f, int alg, RN *root) {
@@ -514,4 +517,337 @@ static void mode_tree(const char *spec) {
 	while (*p && n < 4096) { lv[n].kind = *p == 'm'; lv[n].level = atoi(p + 1); n++; p = strchr(p, ','); if (!p) break; p++; }
 	t.n = n;
 	run_tree(&t);
+}
+
+/* ------------------------------------------------------------------ simulated aggregator
+ * KSI_BlockSigner_closeAndSign calls KSI_Signature_signAggregatedWithPolicy(root hash, root level). The harness interposes
+ * (-Wl,--wrap) only to (1) learn the root the block signer asks to have signed and (2) put a response for exactly that root
+ * where the file:// network client will read it; then the REAL function runs: request, response parsing, HMAC check,
+ * signature construction and internal verification are all library code. The response is encoded by the harness itself. */
+#define AGG_MAXCH 2
+static struct {
+	unsigned char root[RN_MAX]; size_t rootn; int rootlevel; int calls, refused; RN top; int nchains; uint64_t time;
+	char path[600], uri[640];
+} agg;
+
+int __real_KSI_Signature_signAggregatedWithPolicy(KSI_CTX *, KSI_DataHash *, KSI_uint64_t, const KSI_Policy *, KSI_VerificationContext *, KSI_Signature **);
+int __wrap_KSI_Signature_signAggregatedWithPolicy(KSI_CTX *c, KSI_DataHash *rootHash, KSI_uint64_t rootLevel, const KSI_Policy *policy, KSI_VerificationContext *vc, KSI_Signature **sig) {
+	static unsigned char chains[4096], payload[4600], pdu[5000], body[4900]; unsigned char hdr[32], tmp[600], mac[64]; unsigned int macn = 0;
+	const unsigned char *rp; size_t rpn, co = 0, po = 0, bo = 0, total; uint64_t save = vh_rng_state, shapes[AGG_MAXCH]; int ci, j, nch; RN cur; FILE *f;
+	RLink lks[AGG_MAXCH][3]; int nl[AGG_MAXCH]; RN inputs[AGG_MAXCH];
+	agg.calls++; agg.refused = 0;
+	if (rootHash == NULL || KSI_DataHash_getImprint(rootHash, &rp, &rpn) != KSI_OK || rpn > RN_MAX) return KSI_INVALID_ARGUMENT;
+	memcpy(agg.root, rp, rpn); agg.rootn = rpn; agg.rootlevel = (int)rootLevel;
+	if (rootLevel >= 255) { agg.refused = 1; return KSI_SERVICE_AGGR_REQUEST_TOO_LARGE; }   /* nothing can be aggregated above level 255 */
+	vh_seed(vh_hash_bytes(rp, rpn) ^ (rootLevel * 0x9E37ull));
+	nch = rootLevel > 230 ? 1 : 1 + (int)vh_below(AGG_MAXCH);
+	agg.time = 1600000000ull + vh_below(100000000ull);
+	memcpy(cur.d, rp, rpn); cur.n = rpn; cur.level = (int)rootLevel;
+	for (ci = 0; ci < nch; ci++) {
+		nl[ci] = rootLevel > 230 ? 1 : 1 + (int)vh_below(3);
+		inputs[ci] = cur;
+		for (j = 0; j < nl[ci]; j++) {
+			RLink *l = &lks[ci][j]; size_t k;
+			memset(l, 0, sizeof *l); l->isLeft = (int)vh_below(2); l->corr = rootLevel > 230 ? 0 : vh_below(3);
+			l->s[0] = 1; for (k = 0; k < 32; k++) l->s[1 + k] = (unsigned char)vh_rand(); l->sn = 33;
+		}
+		if (ref_fold(1, &cur, lks[ci], nl[ci], &cur) != 0) { vh_rng_state = save; agg.refused = 1; return KSI_SERVICE_AGGR_REQUEST_TOO_LARGE; }
+		shapes[ci] = ref_shape(lks[ci], nl[ci]);
+	}
+	vh_rng_state = save;
+	agg.top = cur; agg.nchains = nch;
+	/* encode: chains (the one next to the document first) */
+	for (ci = 0; ci < nch; ci++) {
+		size_t o = 0; int k;
+		o += tlv_put_int(tmp + o, 0x02, agg.time);
+		for (k = nch - 1; k >= ci; k--) o += tlv_put_int(tmp + o, 0x03, shapes[k]);          /* index: from the top chain down to this one */
+		o += tlv_put(tmp + o, 0x05, 0, inputs[ci].d, inputs[ci].n);
+		o += tlv_put_int(tmp + o, 0x06, 1);
+		for (j = 0; j < nl[ci]; j++) {
+			unsigned char lb[80]; size_t lo = 0;
+			if (lks[ci][j].corr) lo += tlv_put_int(lb + lo, 0x01, lks[ci][j].corr);
+			lo += tlv_put(lb + lo, 0x02, 0, lks[ci][j].s, lks[ci][j].sn);
+			o += tlv_put(tmp + o, lks[ci][j].isLeft ? 0x07 : 0x08, 0, lb, lo);
+		}
+		co += tlv_put(chains + co, 0x801, 0, tmp, o);
+	}
+	po += tlv_put_int(payload + po, 0x01, (uint64_t)c->netProvider->requestCount + 1);
+	po += tlv_put_int(payload + po, 0x04, 0);
+	memcpy(payload + po, chains, co); po += co;
+	{ size_t ho = tlv_put(tmp, 0x01, 0, (const unsigned char *)"anon", 5); bo += tlv_put(body + bo, 0x01, 0, tmp, ho); (void)hdr; }
+	bo += tlv_put(body + bo, 0x02, 0, payload, po);
+	total = bo + 2 + 33;
+	pdu[0] = 0x82; pdu[1] = 0x21; pdu[2] = (unsigned char)(total >> 8); pdu[3] = (unsigned char)total;
+	memcpy(pdu + 4, body, bo); pdu[4 + bo] = 0x1f; pdu[5 + bo] = 33; pdu[6 + bo] = 0x01;
+	HMAC(EVP_sha256(), "anon", 4, pdu, 4 + bo + 3, mac, &macn);
+	memcpy(pdu + 7 + bo, mac, 32);
+	f = fopen(agg.path, "wb"); if (!f) { fprintf(stderr, "harness: cannot write %s\n", agg.path); exit(3); }
+	fwrite(pdu, 1, 4 + total, f); fclose(f);
+	if (KSI_CTX_setAggregator(c, agg.uri, "anon", "anon") != KSI_OK) { fprintf(stderr, "harness: setAggregator failed\n"); exit(3); }
+	return __real_KSI_Signature_signAggregatedWithPolicy(c, rootHash, rootLevel, policy, vc, sig);
+}
+
+/* ------------------------------------------------------------------ reference reading of a serialised signature */
+typedef struct { uint64_t time; uint64_t idx[12]; int nidx; unsigned char in[RN_MAX]; size_t inn; int algo; RLink lk[MAXLINKS]; int nl; } SChain;
+static int parse_sig(const unsigned char *raw, size_t len, SChain *ch, int maxch, int *nch) {
+	TV top, c, e, l; size_t o, p, q; int n = 0;
+	if (tlv_get(raw, len, &top) != 0 || top.tag != 0x800 || top.total != len) return -1;
+	for (o = 0; o < top.n; o += c.total) {
+		if (tlv_get(top.p + o, top.n - o, &c) != 0) return -2;
+		if (c.tag != 0x801) continue;
+		if (n >= maxch) return -3;
+		memset(&ch[n], 0, sizeof ch[n]); ch[n].algo = -1;
+		for (p = 0; p < c.n; p += e.total) {
+			if (tlv_get(c.p + p, c.n - p, &e) != 0) return -4;
+			switch (e.tag) {
+				case 0x02: ch[n].time = tlv_int(&e); break;
+				case 0x03: if (ch[n].nidx >= 12) return -5; ch[n].idx[ch[n].nidx++] = tlv_int(&e); break;
+				case 0x05: if (e.n > RN_MAX) return -6; memcpy(ch[n].in, e.p, e.n); ch[n].inn = e.n; break;
+				case 0x06: ch[n].algo = (int)tlv_int(&e); break;
+				case 0x07: case 0x08: {
+					RLink *k; int sibs = 0;
+					if (ch[n].nl >= MAXLINKS) return -7;
+					k = &ch[n].lk[ch[n].nl++]; memset(k, 0, sizeof *k); k->isLeft = e.tag == 0x07;
+					for (q = 0; q < e.n; q += l.total) {
+						if (tlv_get(e.p + q, e.n - q, &l) != 0) return -8;
+						if (l.tag == 0x01) k->corr = tlv_int(&l);
+						else if (l.tag == 0x02 || l.tag == 0x03 || l.tag == 0x04) { if (l.n > RN_MAX) return -9; memcpy(k->s, l.p, l.n); k->sn = l.n; k->is_md = l.tag == 0x04; k->is_legacy = l.tag == 0x03; sibs++; }
+						else return -10;
+					}
+					if (sibs != 1) return -11;
+					break;
+				}
+				default: break;
+			}
+		}
+		n++;
+	}
+	*nch = n;
+	return 0;
+}
+/* order: longest chain index first (the chain next to the document) */
+static int schain_cmp(const void *a, const void *b) { return ((const SChain *)b)->nidx - ((const SChain *)a)->nidx; }
+
+/* does the signature prove (doc imprint at level 0) -> the value the simulated aggregator computed? returns NULL or the reason */
+static const char *ref_verify_sig(SChain *ch, int nch, const unsigned char *doc, size_t docn) {
+	RN cur; int i, j;
+	if (nch < 1) return "no aggregation chain";
+	memcpy(cur.d, doc, docn); cur.n = docn; cur.level = 0;
+	for (i = 0; i < nch; i++) {
+		if (ch[i].inn != cur.n || memcmp(ch[i].in, cur.d, cur.n)) return i == 0 ? "input hash of the first chain is not the leaf hash" : "chain input is not the previous chain's output";
+		if (!ref_md(ch[i].algo)) return "unknown chain algorithm";
+		if (ch[i].time != agg.time) return "aggregation times differ";
+		if (ch[i].nidx != nch - i) return "chain index lengths are not consecutive";
+		if (ch[i].idx[ch[i].nidx - 1] != ref_shape(ch[i].lk, ch[i].nl)) return "last chain index element is not the shape of the chain";
+		if (i + 1 < nch) for (j = 0; j < ch[i + 1].nidx; j++) if (ch[i].idx[j] != ch[i + 1].idx[j]) return "chain index is not an extension of the next chain's index";
+		if (ref_fold(ch[i].algo, &cur, ch[i].lk, ch[i].nl, &cur) != 0) return "level arithmetic leaves 0..255";
+	}
+	if (cur.n != agg.top.n || memcmp(cur.d, agg.top.d, cur.n)) return "chains do not end in the value the aggregator computed for the block root";
+	if (cur.level != agg.top.level) return "chains end at another level than the aggregator's";
+	return NULL;
+}
+
+/* ------------------------------------------------------------------ block signer scenario */
+typedef struct { Leaf h; int has_md; Leaf md; } BLeaf;
+typedef struct { int algo, masking; unsigned char iv[80]; size_t ivn; RN prev; uint64_t seed; } BParams;
+typedef struct { unsigned char *sig[64]; size_t sign[64]; unsigned char prev[64][RN_MAX]; size_t prevn[64]; unsigned char root[RN_MAX]; size_t rootn; int rootlevel; int n, signed_ok; } BResult;
+
+static const char *bclass(const BParams *bp, const BLeaf *lv, int n) {
+	static char b[64]; int i, md = 0; for (i = 0; i < n; i++) md += lv[i].has_md;
+	snprintf(b, sizeof b, "%s+%s", bp->masking ? "masking" : "no-masking", md == 0 ? "no-metadata" : "metadata");
+	return b;
+}
+static char *block_spec(const BParams *bp, const BLeaf *lv, int n, const char *extra) {
+	size_t cap = 400 + (size_t)n * 16, o; char *s = malloc(cap), *hx = vh_hex(bp->iv, bp->ivn); int i;
+	o = (size_t)snprintf(s, cap, "blocksigner algo=%d masking=%d iv=%s seed=%llu %s leaves(level,m=metadata):", bp->algo, bp->masking, bp->masking ? hx : "-", (unsigned long long)bp->seed, extra);
+	for (i = 0; i < n; i++) o += (size_t)snprintf(s + o, cap - o, "%s%d%s", i ? "," : "", lv[i].h.level, lv[i].has_md ? "m" : "");
+	free(hx);
+	return s;
+}
+#define BVIOL(what, ...) do { char key_[160]; char *sp_ = block_spec(bp, lv, n, phase); snprintf(key_, sizeof key_, "blocksigner:%s:%s", what, bclass(bp, lv, n)); vh_viol(key_, sp_, __VA_ARGS__); free(sp_); } while (0)
+
+static KSI_BlockSigner *bs_new(const BParams *bp) {
+	KSI_BlockSigner *s = NULL; KSI_DataHash *prev = NULL; KSI_OctetString *iv = NULL; int res;
+	if (bp->masking) { unsigned char *ex = vh_exact(bp->iv, bp->ivn); prev = mk_hash(bp->prev.d, bp->prev.n); KSI_OctetString_new(ctx, ex, bp->ivn, &iv); vh_exact_free(ex, bp->ivn); }
+	res = KSI_BlockSigner_new(ctx, bp->algo, prev, iv, &s);
+	KSI_DataHash_free(prev); KSI_OctetString_free(iv);
+	if (res != KSI_OK) { vh_viol("blocksigner:new-fails", "", "KSI_BlockSigner_new(algo %d, masking %d) = %d", bp->algo, bp->masking, res); return NULL; }
+	return s;
+}
+static int get_prev(KSI_BlockSigner *s, unsigned char *out, size_t *outn) {
+	KSI_DataHash *p = NULL; const unsigned char *ip; size_t ipn; int res = KSI_BlockSigner_getPrevLeaf(s, &p);
+	*outn = 0;
+	if (res != KSI_OK) return res;
+	if (p) { KSI_DataHash_getImprint(p, &ip, &ipn); memcpy(out, ip, ipn); *outn = ipn; KSI_DataHash_free(p); }
+	return KSI_OK;
+}
+
+/* adds the leaves, signs, checks every signature; fills r (serialised signatures are kept for the reset-vs-fresh comparison) */
+static void run_block(KSI_BlockSigner *s, const BParams *bp, BLeaf *lv, int n, const char *phase, BResult *r) {
+	static KSI_BlockSignerHandle *hd[64]; static SChain ch[AGG_MAXCH + 2]; static RF rf; int i, res; RN root; unsigned char prevb[RN_MAX]; size_t prevn;
+	memset(r, 0, sizeof *r); r->n = n;
+	get_prev(s, prevb, &prevn);
+	if (bp->masking ? (prevn != bp->prev.n || memcmp(prevb, bp->prev.d, prevn)) : prevn != 0) BVIOL("initial-prevleaf-wrong", "previous leaf of a new/reset signer is not the one given at creation");
+	for (i = 0; i < n; i++) {
+		KSI_DataHash *h = mk_hash(lv[i].h.ref.d, lv[i].h.ref.n); KSI_MetaData *md = lv[i].has_md ? mk_md(&lv[i].md) : NULL;
+		hd[i] = NULL;
+		vh_eval++;
+		res = KSI_BlockSigner_addLeaf(s, h, lv[i].h.level, md, &hd[i]);
+		KSI_DataHash_free(h); KSI_MetaData_free(md);
+		if (res != KSI_OK || !hd[i]) { BVIOL("addLeaf-fails", "leaf %d (level %d): %d", i, lv[i].h.level, res); n = i; break; }
+		get_prev(s, r->prev[i], &r->prevn[i]);
+	}
+	r->n = n;
+	if (n == 0) goto done;
+	vh_eval++;
+	res = KSI_BlockSigner_closeAndSign(s);
+	if (res != KSI_OK) {
+		if (agg.refused) { vh_count("blocks_not_signed_aggregator_limit", 1); vh_count("skipped_out_of_domain", 1); }
+		else BVIOL("closeAndSign-fails", "closeAndSign = %d (simulated aggregator answered for root level %d)", res, agg.rootlevel);
+		goto done;
+	}
+	r->signed_ok = 1; memcpy(r->root, agg.root, agg.rootn); r->rootn = agg.rootn; r->rootlevel = agg.rootlevel;
+	rf_init(&rf);
+	for (i = 0; i < n; i++) {
+		KSI_Signature *sig = NULL; int nch = 0, k, nproc, pr; const char *why; RN start, sub; SChain *leafch = NULL; KSI_DataHash *dh;
+		vh_eval++; vh_fp(vh_mix(vh_mix(bp->seed, 0xb5 + (uint64_t)i), vh_hash_bytes(lv[i].h.ref.d, lv[i].h.ref.n)));
+		res = KSI_BlockSignerHandle_getSignature(hd[i], &sig);
+		if (res != KSI_OK || !sig) { BVIOL("getSignature-fails", "leaf %d (level %d, %d leaves in block): %d", i, lv[i].h.level, n, res); continue; }
+		res = KSI_Signature_serialize(sig, &r->sig[i], &r->sign[i]);
+		if (res != KSI_OK) { BVIOL("serialize-fails", "leaf %d: %d", i, res); KSI_Signature_free(sig); continue; }
+		{ unsigned char *ex = vh_exact(r->sig[i], r->sign[i]); pr = parse_sig(ex, r->sign[i], ch, AGG_MAXCH + 2, &nch); vh_exact_free(ex, r->sign[i]); }
+		if (pr != 0) { BVIOL("signature-unreadable", "leaf %d: reference parser stops with %d", i, pr); KSI_Signature_free(sig); continue; }
+		qsort(ch, (size_t)nch, sizeof ch[0], schain_cmp);
+		/* the signature proves the leaf hash */
+		why = ref_verify_sig(ch, nch, lv[i].h.ref.d, lv[i].h.ref.n);
+		if (why) { char *hx = vh_hex(r->sig[i], r->sign[i]); BVIOL("signature-does-not-prove-leaf", "leaf %d (level %d) of %d: %s; signature %s", i, lv[i].h.level, n, why, hx); free(hx); }
+		else vh_count("signatures_prove_leaf", 1);
+		/* ... and the library's own internal verification with the document hash and level agrees */
+		dh = mk_hash(lv[i].h.ref.d, lv[i].h.ref.n);
+		res = KSI_Signature_verifyWithPolicy(sig, dh, (KSI_uint64_t)lv[i].h.level, KSI_VERIFICATION_POLICY_INTERNAL, NULL);
+		KSI_DataHash_free(dh);
+		if (res != KSI_OK) BVIOL("library-verification-fails", "leaf %d (level %d): internal verification with the leaf hash = %d", i, lv[i].h.level, res);
+		else vh_count("signatures_verified_by_library", 1);
+		KSI_Signature_free(sig);
+		/* structure below the forest: metadata link, mask link */
+		nproc = lv[i].has_md + bp->masking;
+		if (nch == agg.nchains + 1) leafch = &ch[0];
+		else if (nch != agg.nchains) { BVIOL("unexpected-chain-count", "leaf %d: %d chains", i, nch); continue; }
+		memcpy(start.d, lv[i].h.ref.d, lv[i].h.ref.n); start.n = lv[i].h.ref.n; start.level = 0;
+		if (nproc == 0) { sub = start; sub.level = lv[i].h.level; }
+		else {
+			if (!leafch || leafch->nl < nproc) { BVIOL("processor-links-missing", "leaf %d: %d links, %d expected from metadata/masking", i, leafch ? leafch->nl : 0, nproc); continue; }
+			if (lv[i].has_md) {
+				int found = 0;
+				for (k = 0; k < nproc; k++) if (leafch->lk[k].is_md && md_payload_ok(leafch->lk[k].s, leafch->lk[k].sn, &lv[i].md.ref)) found++;
+				if (found != 1) BVIOL("metadata-link-missing", "leaf %d: the leaf's metadata is not in the first %d links", i, nproc); else vh_count("metadata_links_ok", 1);
+			}
+			if (bp->masking) {
+				/* chaining rule: mask_i = H(prev_{i-1} | iv); new previous leaf = the node that has the mask as left child */
+				unsigned char m[RN_MAX]; size_t mn; const unsigned char *pb = i ? r->prev[i - 1] : bp->prev.d; size_t pbn = i ? r->prevn[i - 1] : bp->prev.n; int found = -1; RN after;
+				ref_hash(bp->algo, pb, pbn, bp->iv, bp->ivn, -1, m, &mn);
+				for (k = 0; k < nproc; k++) if (!leafch->lk[k].isLeft && !leafch->lk[k].is_md && leafch->lk[k].sn == mn && !memcmp(leafch->lk[k].s, m, mn)) found = k;
+				if (found < 0) BVIOL("mask-chain-rule", "leaf %d: no left sibling H(previous leaf | iv) among the first %d links", i, nproc);
+				else if (ref_fold(leafch->algo, &start, leafch->lk, found + 1, &after) != 0 || after.n != r->prevn[i] || memcmp(after.d, r->prev[i], after.n)) BVIOL("mask-chain-rule", "leaf %d: getPrevLeaf after the leaf is not the masked node", i);
+				else vh_count("mask_links_ok", 1);
+			}
+			if (ref_fold(leafch->algo, &start, leafch->lk, nproc, &sub) != 0) { BVIOL("processor-links-missing", "leaf %d: level overflow below the forest", i); continue; }
+		}
+		if (rf_add(&rf, bp->algo, &sub) != 0) BVIOL("root-not-canonical-merge", "leaf %d: reference forest overflows level 255 although the block was signed", i);
+	}
+	/* the root that was sent for signing is the canonical merge of the (masked / metadata-bound) leaves */
+	vh_eval++;
+	if (rf_close(&rf, bp->algo, &root) != 0 || root.n != r->rootn || memcmp(root.d, r->root, root.n) || root.level != r->rootlevel) {
+		char *a = vh_hex(root.d, root.n), *b = vh_hex(r->root, r->rootn); BVIOL("root-not-canonical-merge", "%d leaves: reference merge %s level %d, signed root %s level %d", n, a, root.level, b, r->rootlevel); free(a); free(b);
+	} else vh_count("block_roots_canonical", 1);
+	if (vh_nsample < 5 && n > 2 && bp->masking) { char *hx = vh_hex(r->root, r->rootn); vh_sample("%s: root %s level %d signed by the simulated aggregator (%d chains); %d signatures prove their leaf", block_spec(bp, lv, n, phase), hx, r->rootlevel, agg.nchains, n); free(hx); }
+	vh_count("blocks_signed_and_checked", 1);
+done:
+	for (i = 0; i < r->n; i++) { KSI_BlockSignerHandle_free(hd[i]); hd[i] = NULL; }
+}
+static void bresult_free(BResult *r) { int i; for (i = 0; i < 64; i++) { KSI_free(r->sig[i]); r->sig[i] = NULL; } }
+
+static void gen_bleaves(BLeaf *lv, int n, uint64_t seed, int mdmode, int lvlmode) {
+	int i;
+	for (i = 0; i < n; i++) {
+		memset(&lv[i], 0, sizeof lv[i]);
+		lv[i].h.kind = 0; lv[i].h.level = lvlmode == 0 ? 0 : lvlmode == 1 ? (int)vh_below(4) : vh_below(6) ? 0 : (int)vh_below(40);
+		leaf_material(&lv[i].h, seed, i);
+		/* block signer input hashes must be of a trusted algorithm: SHA-1 material is replaced */
+		if (lv[i].h.ref.d[0] == 0) { lv[i].h.ref.d[0] = 1; lv[i].h.ref.n = 33; { size_t k; for (k = 21; k < 33; k++) lv[i].h.ref.d[k] = (unsigned char)(k * 7 + (unsigned)i); } }
+		lv[i].has_md = mdmode == 0 ? 0 : mdmode == 1 ? 1 : (int)vh_below(2);
+		if (lv[i].has_md) { lv[i].md.kind = 1; lv[i].md.level = 0; leaf_material(&lv[i].md, seed ^ 0x5151, i); }
+	}
+}
+
+static void mode_bs(uint64_t seed, int nblocks) {
+	static BLeaf lv[64], pre[64]; static BResult ra, rb, rp; int k;
+	vh_seed(seed);
+	for (k = 0; k < nblocks; k++) {
+		BParams P, *bp = &P; KSI_BlockSigner *a, *b; int n, i, nphase, mdmode = (int)vh_below(3), lvlmode = (int)vh_below(3), ph; const char *phase = "final"; size_t j; char desc[128];
+		memset(&P, 0, sizeof P);
+		P.algo = (int[]){1, 1, 4, 5}[vh_below(4)]; P.masking = (int)vh_below(3) != 0; P.seed = vh_rand() >> 16;
+		P.ivn = vh_below(5) == 0 ? 1 + vh_below(16) : 16 + vh_below(49); for (j = 0; j < P.ivn; j++) P.iv[j] = (unsigned char)vh_rand();
+		if (vh_below(3) == 0) { P.prev.d[0] = 1; memset(P.prev.d + 1, 0, 32); P.prev.n = 33; } else { int alg = (int[]){1, 4, 5}[vh_below(3)]; P.prev.d[0] = (unsigned char)alg; for (j = 0; j < ref_dlen(alg); j++) P.prev.d[1 + j] = (unsigned char)vh_rand(); P.prev.n = 1 + ref_dlen(alg); }
+		n = vh_below(6) == 0 ? 1 + (int)vh_below(3) : 1 + (int)vh_below(40);
+		gen_bleaves(lv, n, P.seed, mdmode, lvlmode);
+		nphase = (int)vh_below(4);            /* number of blocks fed and reset before the final one (0: compare two fresh signers) */
+		snprintf(desc, sizeof desc, "pre-phases=%d", nphase);
+		vh_case("bs %s", block_spec(bp, lv, n, desc));
+		vh_fp(vh_mix(P.seed, (uint64_t)n * 64 + (uint64_t)(P.masking * 8 + mdmode * 2) + (uint64_t)nphase * 1000));
+		a = bs_new(bp); if (!a) continue;
+		for (ph = 0; ph < nphase; ph++) {
+			int pn = (int)vh_below(12), sign = (int)vh_below(2), res; unsigned char pv[RN_MAX]; size_t pvn;
+			gen_bleaves(pre, pn, P.seed + 77 + (uint64_t)ph, (int)vh_below(3), (int)vh_below(2));
+			if (sign && pn > 0) { run_block(a, bp, pre, pn, "before-reset", &rp); bresult_free(&rp); vh_count("blocks_signed_before_reset", 1); }
+			else for (i = 0; i < pn; i++) { KSI_DataHash *h = mk_hash(pre[i].h.ref.d, pre[i].h.ref.n); KSI_MetaData *md = pre[i].has_md ? mk_md(&pre[i].md) : NULL; KSI_BlockSigner_addLeaf(a, h, pre[i].h.level, md, NULL); KSI_DataHash_free(h); KSI_MetaData_free(md); }
+			vh_eval++;
+			res = KSI_BlockSigner_reset(a);
+			if (res != KSI_OK) { vh_viol("blocksigner:reset-fails", "", "KSI_BlockSigner_reset = %d", res); break; }
+			get_prev(a, pv, &pvn);
+			if (P.masking ? (pvn != P.prev.n || memcmp(pv, P.prev.d, pvn)) : pvn != 0) { const BLeaf *lvx = lv; (void)lvx; BVIOL("reset-prevleaf-not-restored", "after reset getPrevLeaf is not the value given at creation"); }
+			vh_count(sign && pn > 0 ? "resets_after_signing" : pn ? "resets_mid_block" : "resets_of_empty_signer", 1);
+		}
+		phase = nphase ? "after-reset" : "fresh";
+		run_block(a, bp, lv, n, phase, &ra);
+		b = bs_new(bp);
+		if (b) {
+			run_block(b, bp, lv, n, "fresh", &rb);
+			/* a reset signer behaves exactly like a newly created one */
+			vh_eval++;
+			if (ra.signed_ok && rb.signed_ok && ra.n == n && rb.n == n) {
+				int dsig = -1, dprev = -1, droot = ra.rootn != rb.rootn || memcmp(ra.root, rb.root, ra.rootn) || ra.rootlevel != rb.rootlevel;
+				for (i = n - 1; i >= 0; i--) {
+					if (ra.sig[i] && rb.sig[i] && (ra.sign[i] != rb.sign[i] || memcmp(ra.sig[i], rb.sig[i], ra.sign[i]))) dsig = i;
+					if (ra.prevn[i] != rb.prevn[i] || memcmp(ra.prev[i], rb.prev[i], ra.prevn[i])) dprev = i;
+				}
+				if (dsig >= 0 || dprev >= 0 || droot) {
+					char *s1 = dsig >= 0 ? vh_hex(ra.sig[dsig], ra.sign[dsig]) : strdup("-"), *s2 = dsig >= 0 ? vh_hex(rb.sig[dsig], rb.sign[dsig]) : strdup("-");
+					BVIOL(nphase ? "reset-differs-from-fresh" : "two-fresh-signers-differ", "same %d leaves after %d reset(s): %s%s%s first differing signature: leaf %d; reset signer: %s fresh signer: %s", n, nphase,
+						droot ? "block roots differ; " : "", dprev >= 0 ? "previous-leaf sequence differs; " : "", dsig >= 0 ? "signatures differ;" : "", dsig, s1, s2);
+					free(s1); free(s2);
+				} else vh_count(nphase ? "reset_equals_fresh" : "fresh_equals_fresh", 1);
+			} else vh_count("comparison_skipped_block_not_signed", 1);
+			bresult_free(&rb); KSI_BlockSigner_free(b);
+		}
+		bresult_free(&ra); KSI_BlockSigner_free(a);
+		vh_count("block_cases", 1);
+	}
+}
+
+int main(int argc, char **argv) {
+	const char *mode = argc > 1 ? argv[1] : "";
+	if (KSI_CTX_new(&ctx) != KSI_OK) return 3;
+	{ const char *w = getenv("VH_CASEFILE"); snprintf(agg.path, sizeof agg.path, "%s.aggr-response.tlv", w ? w : "/tmp/c16"); snprintf(agg.uri, sizeof agg.uri, "file://%s", agg.path); }
+	if (!strcmp(mode, "exh") && argc > 4) mode_exh(atoi(argv[2]), atoi(argv[3]), atoi(argv[4]));
+	else if (!strcmp(mode, "rnd") && argc > 3) mode_rnd(strtoull(argv[2], NULL, 10), atoi(argv[3]));
+	else if (!strcmp(mode, "carry") && argc > 3) mode_carry(strtoull(argv[2], NULL, 10), atoi(argv[3]), 0);
+	else if (!strcmp(mode, "leak") && argc > 3) mode_carry(strtoull(argv[2], NULL, 10), atoi(argv[3]), 1);
+	else if (!strcmp(mode, "bs") && argc > 3) mode_bs(strtoull(argv[2], NULL, 10), atoi(argv[3]));
+	else if (!strcmp(mode, "tree") && argc > 2) mode_tree(argv[2]);
+	else { fprintf(stderr, "usage: c16_tree exh|rnd|carry|leak|bs|tree ...\n"); return 3; }
+	unlink(agg.path);
+	KSI_CTX_free(ctx);
+	vh_finish(getenv("VH_FPFILE"));
+	return 0;
 }
